@@ -20,7 +20,7 @@ PROPS = {
     "C13": dict(extra_trusted=["loop-cut rewrite of fruchterman_reingold_layout (printed in the evidence: one inserted statement)",
                                 "deepcopy / layout / overlap replaced by recorders in the force_algorithm contract"]),
     "C14": dict(extra_trusted=["loop-cut rewrite of spectral_layout_die (power iteration cut to one arbitrary iteration, loop over the dimensions restricted to one chosen iteration; printed in the evidence)",
-                                "inside the loop-cut runs normalize is its contract and orthogonalize's internal self-check is discharged by its leaf obligation (same sizes)",
+                                "inside the loop-cut runs normalize is replaced by its contract (discharged on the real function by the leaf task of the same run)",
                                 "random.uniform(a, b) returns some value in [a, b]",
                                 "NOT proved: absence of degenerate arithmetic (ZeroDivisionError / ValueError allowed by the contracts); rounding; bounded float leg only"]),
     "C15": dict(extra_trusted=["brute-force oracles written for this check (decomposability, polygon tracing)"]),
